@@ -45,7 +45,18 @@ def hello_text(rng, caps, sid=None, clean=False):
     body = ''.join('<capability>%s</capability>' % c.replace('&', '&amp;') for c in caps)
     if r < 0.08:
         body += '<capability/>'                 # empty capability: HelloHandler.parse raises -> connect fails
+    if clean or r >= 0.08:
+        # comments and processing instructions are legal anywhere inside the document (RFC 6241 does not exclude them)
+        k = rng.random()
+        if k < 0.15:
+            body = '<!-- advertised by the device -->' + body
+        elif k < 0.3 and caps:
+            body = body.replace('</capability><capability>', '</capability><!--x--><capability>', 1)
+        elif k < 0.4:
+            body = body + '<?vendor build=7?>'
     if r < 0.85:
+        if rng.random() < 0.15:
+            return '<hello xmlns="%s"><!-- hello --><capabilities>%s</capabilities><?x y?><session-id>%s</session-id></hello>' % (BASE_NS, body, sid)
         return '<hello xmlns="%s"><capabilities>%s</capabilities><session-id>%s</session-id></hello>' % (BASE_NS, body, sid)
     if r < 0.95:
         return '<hello><capabilities>%s</capabilities><session-id>%s</session-id></hello>' % (body, sid)
@@ -56,7 +67,7 @@ def reply_text(rng, mid, n):
     r = rng.random()
     body = rng.choice(['<ok/>', '<data><v>é%d</v></data>' % n, '<data/>'])
     if r < 0.8:
-        return '<rpc-reply message-id="%s" xmlns="%s">%s</rpc-reply>' % (mid, BASE_NS, body)
+        return '<rpc-reply message-id="%s" xmlns="%s"%s>%s</rpc-reply>' % (mid, BASE_NS, big_root_attrs(n + 1), body)
     if r < 0.9:
         return '<rpc-reply message-id="%s">%s</rpc-reply>' % (mid, body)          # no namespace (junos style)
     return '<nc:rpc-reply xmlns:nc="%s" message-id="%s">%s</nc:rpc-reply>' % (BASE_NS, mid, body)
@@ -73,8 +84,15 @@ def event_time(k):
     return t % (k % 60) if '%' in t else t
 
 
+def big_root_attrs(k):
+    """Every 5th message has a root START TAG of several kB (all module prefixes declared on the root, as YANG-push devices do)."""
+    if k % 5 != 3:
+        return ''
+    return ''.join(' xmlns:m%d="urn:example:yang:module-%d:with-a-rather-long-namespace-name"' % (i, i) for i in range(70 + k % 20))
+
+
 def notification_text(rng, k):
-    return '<notification xmlns="%s"><eventTime>%s</eventTime><e>n%d ü</e></notification>' % (NOTIF_NS, event_time(k), k)
+    return '<notification xmlns="%s"%s><eventTime>%s</eventTime><e>n%d ü</e></notification>' % (NOTIF_NS, big_root_attrs(k), event_time(k), k)
 
 
 ODD = ['<foo/>', '<rpc-reply xmlns="%s"><ok/></rpc-reply>' % BASE_NS, '<rpc-reply message-id="urn:uuid:ffffffff-0000-0000-0000-000000000000" xmlns="%s"><ok/></rpc-reply>' % BASE_NS,
@@ -245,8 +263,19 @@ def explore(rng, transport, profile, flavor, runner_cls, max_cmds=70):
                     if odd.startswith('<notification'):
                         info['odd_notifs'] = info.get('odd_notifs', 0) + 1
                     srv.push(odd)
+        # a request issued from inside the dispatch of the first notification (before any other request exists)
+        if finished and R.conn_result == 'ok' and not closed and n_req == 0 and 'ltrap' not in info and flavor in ('normal', 'odd') and hello_sent:
+            info['ltrap'] = rng.random() < 0.25
+            if info['ltrap']:
+                do(['ltrap'])
+                srv.notifs += 1
+                srv.push(notification_text(rng, srv.notifs))
+                n_req += 1                  # the request the listener will issue
+                continue
+        if info.get('ltrap') and not getattr(R, 'ltrap_fired', False):
+            pass                            # no other request until the notification has been dispatched
         # client actions
-        if finished and R.conn_result == 'ok' and not closed and rng.random() < 0.25 and n_req < 6:
+        elif finished and R.conn_result == 'ok' and not closed and rng.random() < 0.25 and n_req < 6:
             n_req += 1
             if flavor == 'fault' and rng.random() < 0.25 and not info.get('trap'):
                 info['trap'] = True
